@@ -37,8 +37,8 @@ theorem onSign_approved {adminIPs : List String} {ip : String} {domain : Bytes}
 
 /-- **C05 (generic, single).** `SignGeneric` never returns a signature under the attester or proposer
     domain types, and under the voluntary-exit type only for a listed, non-empty source address. -/
-theorem C05_generic_single (s : Inst) (c ip : String) (a : Addr) (d : SignData) (sf : Bool)
-    (h : (signGeneric s c ip a d sf).2.root ≠ none) :
+theorem C05_generic_single (s : Inst) (c ip : String) (a : Addr) (d : SignData) (sf lf : Bool)
+    (h : (signGeneric s c ip a d sf lf).2.root ≠ none) :
     GenericAllowed s.cfg.adminIPs ip (d.domain.getD []) := by
   unfold signGeneric at h
   split at h
@@ -92,8 +92,8 @@ theorem signGenerics_root_iff (adminIPs : List String) (ip : String) (sf : List 
     · exact ih (i + 1) p hp
 
 /-- **C05 (generic, multi).** Every entry `Multisign` adds to the released log is allowed. -/
-theorem C05_generic_multi (s : Inst) (c ip : String) (items : List (Addr × SignData)) (sf : List Nat) :
-    ∀ e ∈ (multisign s c ip items sf).1.signLog,
+theorem C05_generic_multi (s : Inst) (c ip : String) (items : List (Addr × SignData)) (sf : List Nat) (lf : Bool) :
+    ∀ e ∈ (multisign s c ip items sf lf).1.signLog,
       e ∈ s.signLog ∨ GenericAllowed s.cfg.adminIPs ip (e.2.domain.getD []) := by
   unfold multisign
   simp only
